@@ -9,6 +9,7 @@ CASES = ["lowercase", "UPPERCASE", "PascalCase", "camelCase", "snake_case", "SCR
 # identifiers serde's case rules treat specially are in: a leading underscore (camelCase lower-cases the first character *after* PascalCasing,
 # so `_id` -> `id`), a doubled underscore, a trailing underscore
 FIELD_NAMES = ["a", "user_name", "x1", "a_b_c", "http_url2", "id", "is_active", "created_at", "n", "first_name_2", "url", "v2_api", "_uid", "_created_on", "a__b", "kind_"]
+SKIP_DEFAULT = {"u8": "0", "String": "String::new()", "bool": "false"}
 VARIANT_NAMES = ["A", "HTTPError", "IoV2", "UserCreated", "Ok", "NotFound", "B2", "XmlHttpRequest"]
 # none of these can coincide with a case conversion of a FIELD_NAMES entry (two fields with one wire name are a generator fault)
 RENAMES = ["user-name-r", "fullName", "IDENT", "xr", "type", "2fa", "with space", "snake_name", "Kebab-Case-Name", "ünï"]
@@ -217,6 +218,12 @@ WITNESSES = [
     ("X10:empty tuple variant and empty struct variant", ["w:X10", "tagging:external", "v:empty-tuple", "v:empty-struct"], "enum_mixed",
      'pub enum T { A(), B {}, C(u8) }\n',
      ['T::A()', 'T::B {}', 'T::C(1)']),
+    ("m9:tuple struct with one element left after skipping", ["w:m9", "tuple:2", "tuple:skipped-elements:1-left"], "tuple",
+     'pub struct T(pub u32, #[serde(skip)] pub u8);\n',
+     ['T(7, 0)']),
+    ("m9:tuple variant with one element left after skipping", ["w:m9", "tagging:external", "v:tuple:skipped-element"], "enum_mixed",
+     'pub enum T { Label(String, #[serde(skip)] u8), Two(u8, bool) }\n',
+     ['T::Label("x".into(), 0)', 'T::Two(1, true)']),
     ("F1:Option::None is written as null", ["w:F1", "t:option"], "struct",
      'pub struct T { pub a: Option<u8> }\n',
      ['T { a: Some(1) }', 'T { a: None }']),
@@ -284,8 +291,15 @@ def gen_type(g, idx):
     elif shape == "tuple":
         tys = [g.pick(["u8", "String", "bool", "f64", "N"]) for _ in range(g.r.randrange(2, 4))]
         attrs.append("tuple:%d" % len(tys))
-        src = "pub struct T(" + ", ".join("pub " + t for t in tys) + ");\n"
-        inst = lambda g, full: "T(" + ", ".join(value_expr(g, t, helpers, full) for t in tys) + ")"
+        # elements that are never written (`#[serde(skip)]`: a cache, a marker): serde still treats the type as a tuple of what is left,
+        # whether that is several elements, one, or none
+        skipped = [False] * len(tys)
+        if g.chance(1, 4):
+            for i in range(len(tys)):
+                if g.chance(1, 2): skipped[i] = True; tys[i] = g.pick(["u8", "String", "bool"])
+            if any(skipped): attrs.append("tuple:skipped-elements:%d-left" % skipped.count(False))
+        src = "pub struct T(" + ", ".join(("#[serde(skip)] " if sk else "") + "pub " + t for t, sk in zip(tys, skipped)) + ");\n"
+        inst = lambda g, full: "T(" + ", ".join((SKIP_DEFAULT[t] if sk else value_expr(g, t, helpers, full)) for t, sk in zip(tys, skipped)) + ")"
     elif shape == "unit":
         attrs.append("unit-struct")
         src = "pub struct T;\n"
@@ -346,7 +360,9 @@ def gen_type(g, idx):
                 vlines.append(f"    {pre}{v}(N),"); makers.append(lambda g, full, v=v: f"T::{v}({value_expr(g, 'N', helpers, full)})"); attrs.append("v:newtype")
             elif k == "tuple":
                 tys = [g.pick(["u8", "String", "bool"]) for _ in range(2)]
-                vlines.append(f"    {pre}{v}({', '.join(tys)}),"); makers.append(lambda g, full, v=v, tys=tys: f"T::{v}(" + ", ".join(value_expr(g, t, helpers, full) for t in tys) + ")"); attrs.append("v:tuple")
+                sk = [False, False]
+                if g.chance(1, 5): sk[g.r.randrange(2)] = True; attrs.append("v:tuple:skipped-element")
+                vlines.append(f"    {pre}{v}({', '.join(('#[serde(skip)] ' if k_ else '') + t for t, k_ in zip(tys, sk))}),"); makers.append(lambda g, full, v=v, tys=tys, sk=sk: f"T::{v}(" + ", ".join((SKIP_DEFAULT[t] if k_ else value_expr(g, t, helpers, full)) for t, k_ in zip(tys, sk)) + ")"); attrs.append("v:tuple")
             else:
                 lines, value, _ = gen_named_fields(g, helpers, attrs, allow_flatten=False, for_variant=True)
                 vlines.append(f"    {pre}{v} {{\n    " + "\n    ".join(lines) + "\n    },"); makers.append(lambda g, full, v=v, value=value: f"T::{v} " + value(g, full)); attrs.append("v:struct")
